@@ -289,6 +289,26 @@ def d5(ctx):
                 n += 1
                 if not all(t.cls == 'DjangoCache' for t in e.d['targets']):
                     ok, wit = False, fmt_trace(p.trace)
+    # lookup and store use the same version (the decorator's `version` argument)
+    okv, nv = True, 0
+    for p in ctx.paths(wf, 'plain'):
+        vers = []
+        for e in p.trace:
+            if e.kind == 'CALL' and e.d['name'] in ('get', 'set') and not e.d.get('inlined') \
+                    and all(t.cls == 'DjangoCache' for t in e.d['targets']):
+                t = e.d['targets'][0]
+                v = e.d['kwargs'].get('version')
+                if v is None and 'version' in t.params:
+                    i = t.params.index('version')
+                    v = e.d['args'][i] if i < len(e.d['args']) else None
+                vers.append(v)
+        if vers:
+            nv += 1
+            if any(v is None or v != vers[0] for v in vers) or not (vers[0].k == 'free' and vers[0].a[0] == 'version'):
+                okv = False
+    obs.append(Ob('D5', 'memoize/one-version', okv and nv > 0,
+                  'the memoize wrapper does not pass the decorator\'s `version` to both its lookup and its store: '
+                  'memoize(version=N) never hits and its results leak into another version\'s key space', wf.loc()))
     obs.append(Ob('D5', 'memoize/wrapper-uses-adapter-methods', ok and n >= 2,
                   'the memoize wrapper bypasses DjangoCache.get/set (which apply make_key and the timeout conversion '
                   'once): keys seen by the wrapper and by callers of the cache API differ', wf.loc(), wit))
@@ -324,3 +344,41 @@ def d6(ctx):
                'to the backend instance of every thread, so the first instance changes the configuration of all later '
                'ones (e.g. a popped `disk` makes them fall back to the default serializer and see different data)' %
                (ast.unparse(bad.node)[:60] if bad is not None else ''), f.loc(bad.node) if bad is not None else f.loc())]
+
+
+@rule('D7', floor=3, title='DjangoCache.__init__ reads each FanoutCache argument from its own configuration key')
+def d7(ctx):
+    """SHARDS -> shards, DATABASE_TIMEOUT -> timeout (the SQLite lock timeout, not Django's item TIMEOUT),
+    OPTIONS -> settings."""
+    f = ctx.method('DjangoCache', '__init__')
+    want = {'shards': 'SHARDS', 'timeout': 'DATABASE_TIMEOUT', '**': 'OPTIONS'}
+    got = {}
+    for p in ctx.paths(f, 'plain'):
+        for e in p.trace:
+            if e.kind == 'NEW' and e.d['name'] == 'FanoutCache':
+                fc = ctx.method('FanoutCache', '__init__')
+                bound = {}
+                for i, a in enumerate(e.d['args']):
+                    if i < len(fc.params):
+                        bound[fc.params[i]] = a
+                bound.update(e.d['kwargs'])
+                if e.d.get('starkw') is not None:
+                    bound['**'] = e.d['starkw']
+                for name, v in bound.items():
+                    keys = set()
+                    for x in deep_values(v, p.trace):
+                        if x.k == 'mcall' and x.a[0] in ('get', 'pop', '__getitem__') and isinstance(x.a[1], int):
+                            ev = p.trace[x.a[1]]
+                            r = ev.d.get('recv')
+                            if r is not None and r.k == 'param' and ev.d['args'] and ev.d['args'][0].is_const:
+                                keys.add(ev.d['args'][0].val)
+                        if x.k == 'item' and x.a[0].k == 'param' and x.a[1].is_const:
+                            keys.add(x.a[1].val)
+                    got[name] = keys
+    obs = []
+    for name, key in sorted(want.items()):
+        obs.append(Ob('D7', 'DjangoCache.__init__/%s<-%s' % (name.strip('*') or 'settings', key), got.get(name) == {key},
+                      'FanoutCache(%s=...) is configured from %s instead of params[%r]: e.g. the SQLite lock timeout '
+                      'taken from Django\'s item TIMEOUT makes writes block for minutes (or makes TIMEOUT=None crash)' %
+                      (name, sorted(got.get(name) or []), key), f.loc()))
+    return obs
